@@ -401,7 +401,12 @@ func (r *rng) item(p profile, w, h int) (int, string) {
 			}
 			return kind, s + string(rune(f))
 		}
-		switch r.n(6) {
+		switch r.n(7) {
+		case 6:
+			// strings that are not `number ; payload`: a number closed at once by each terminator, a number followed by
+			// other bytes, no number at all; what follows the terminator must be interpreted again (seeded change C14-m8)
+			body := r.pick("112", "104", "0", "2", "7", "", "", "x", "?", "l", "12x", "1\x1b", "\x1b", "\x1b\x1b", "a\x1bb", "\\", "9\\")
+			return kind, "\x1b]" + body + r.pick("\x1b\\", "\x1b\\", "\x07", "\x9c") + r.pick("", "", "\x1b[6n", "\x1b[5n", "\x1b[c", "z")
 		case 0:
 			return kind, "\x1b]" + r.pick("0", "2", "6", "7", "4", "52", "", "10", "112", "9999999999999999999999", "18446744073709551616", "18446744073709551618", "18446744073709551622", "18446744073709551623", "4294967296", "4294967298", "00", "07") + ";" + r.oscPayload(p.wide) + r.pick("\x07", "\x1b\\")
 		case 1:
